@@ -88,6 +88,7 @@ int main(int argc, char **argv) {
   bool fk = flags.find('k') != std::string::npos;   // tokens only (--tokens)
   bool fo = flags.find('o') != std::string::npos;   // also the lowered and optimised directive lists
   bool ff = flags.find('f') != std::string::npos;   // also frame events
+  bool fB = flags.find('B') != std::string::npos;   // with y: also the bytes of the emitted file
   bool fg = flags.find('g') != std::string::npos;   // with y: the intermediate and lowered directive lists instead of the trees
   bool fy = flags.find('y') != std::string::npos;   // syntax only: token list (from the lexer itself), --tree and --tree-opt text
   if (chdir(scratch.c_str()) != 0) return 2;
@@ -144,8 +145,21 @@ int main(int argc, char **argv) {
         try { xcmp::Driver dr(ts); dr.run(acts[k], src, false); } catch (const std::exception &e) { st[k] = "error"; dg[k] = e.what(); }
         out[k] = ts.str();
       }
-      fprintf(g_out, "{\"id\":\"%s\",\"idx\":%ld,\"status\":\"%s\",\"diag\":\"%s\",\"toks\":%s,\"tree\":\"%s\",\"optstatus\":\"%s\",\"treeopt\":\"%s\"}\n", jesc(g_id).c_str(), g_index,
-              st[0].c_str(), jesc(dg[0]).c_str(), toks.c_str(), jesc(out[0]).c_str(), st[1].c_str(), jesc(out[1]).c_str());
+      std::string binfield;
+      if (fB) {
+        // the file `xcmp -o` writes (hex), or its refusal
+        std::string bst = "ok", bhex;
+        unlink(binpath.c_str());
+        try { std::ostringstream sink; xcmp::Driver dr(sink); dr.run(xcmp::DriverAction::EMIT_BINARY, src, false, binpath); } catch (const std::exception &) { bst = "error"; }
+        if (bst == "ok") {
+          std::string raw = slurp(binpath);
+          static const char *hx = "0123456789abcdef";
+          for (unsigned char ch : raw) { bhex += hx[ch >> 4]; bhex += hx[ch & 15]; }
+        }
+        binfield = ",\"binstatus\":\"" + bst + "\",\"bin\":\"" + bhex + "\"";
+      }
+      fprintf(g_out, "{\"id\":\"%s\",\"idx\":%ld,\"status\":\"%s\",\"diag\":\"%s\",\"toks\":%s,\"tree\":\"%s\",\"optstatus\":\"%s\",\"treeopt\":\"%s\"%s}\n", jesc(g_id).c_str(), g_index,
+              st[0].c_str(), jesc(dg[0]).c_str(), toks.c_str(), jesc(out[0]).c_str(), st[1].c_str(), jesc(out[1]).c_str(), binfield.c_str());
       struct itimerval tk0 = {{0, 0}, {0, 0}};
       setitimer(ITIMER_VIRTUAL, &tk0, nullptr);
       continue;
